@@ -49,7 +49,11 @@ type Check struct {
 	// this property attributed to the case announced with r.Case(); the child is
 	// restarted after that case. Otherwise a dead child is a harness error (exit 2).
 	CrashIsViolation bool
-	Run              func(r *Run)
+	// CrashIsInconclusive: a dead worker is neither a violation of this property
+	// nor a harness error: the announced case is recorded as inconclusive and the
+	// worker resumes after it (crashes are judged by the properties that own them).
+	CrashIsInconclusive bool
+	Run                 func(r *Run)
 	// Replay re-executes one recorded case without the explorer and prints both
 	// observations; returns true when the violation reproduces.
 	Replay func(r *Run, c json.RawMessage) bool
@@ -522,7 +526,8 @@ func runShards(c Check, r *Run) {
 				out := filepath.Join(tmp, fmt.Sprintf("out-%d-%d.json", i, attempt))
 				cf := filepath.Join(tmp, fmt.Sprintf("case-%d", i))
 				_ = os.Remove(cf)
-				cmd := exec.Command(exe, "--tier", r.Tier)
+				// address space ceiling so a runaway allocation kills one worker, not the machine
+				cmd := exec.Command("/bin/sh", "-c", "ulimit -v "+envOr("VERIF_CHILD_VMEM_KB", "16777216")+"; exec \"$0\" \"$@\"", exe, "--tier", r.Tier)
 				cmd.Env = append(os.Environ(),
 					fmt.Sprintf("VERIF_SHARD=%d/%d", i, n),
 					"VERIF_SHARD_OUT="+out,
@@ -561,6 +566,12 @@ func runShards(c Check, r *Run) {
 				idxStr, desc, _ := strings.Cut(caseLine, "\t")
 				idx, perr := strconv.ParseInt(strings.TrimSpace(idxStr), 10, 64)
 				tail := stderr.String()
+				if c.CrashIsInconclusive && perr == nil {
+					r.Inconclusive(fmt.Sprintf("worker died at case %s: %s", desc, firstLine(tail)))
+					r.Count("worker_deaths", 1)
+					resume = idx
+					continue
+				}
 				if !c.CrashIsViolation || perr != nil {
 					hmu.Lock()
 					harnessErr = true
